@@ -111,7 +111,7 @@ def main():
         if pid not in claimed and pid not in listed:
             na.append(dict(property_id=pid, reason='check not built yet in this revision of /verif (planned, see DESIGN.md section 4); no claim is made'))
     man = dict(version=1, setup_cmd='cd /verif && ./setup.sh',
-               hooks=dict(guard='EAO_VERIF_TRACE', enable='export EAO_VERIF_TRACE=1 (checks set it themselves where a hook is used)',
+               hooks=dict(guard='EAO_VERIF_TRACE', enable='EAO_VERIF_TRACE=<ndjson file> in the environment of the process importing eaopack (set by harness/harvest.py for the thorough tiers of C01 and C04; nothing else uses a hook)',
                           baseline_off_cmd='cd /repo && /venv/bin/python -m pytest -ra -q -p no:cacheprovider --timeout=900 --continue-on-collection-errors',
                           source_commits=HOOK_COMMITS, add_only=True),
                engines=ENGINES, checks=checks, not_applicable=na,
@@ -121,7 +121,7 @@ def main():
     print('MANIFEST.json: %d checks, %d not_applicable' % (len(checks), len(na)))
 
 
-HOOK_COMMITS = []
+HOOK_COMMITS = ['8c91048']
 
 if __name__ == '__main__':
     main()
